@@ -73,13 +73,20 @@ class JaggedArray:
                         )
                         offset += len(flattenedList)
                         flattenedArray.extend(flattenedList)
-            elif isinstance(arr, (int, float)):
+            elif isinstance(arr, (int, float, np.number, np.bool_)):
                 offsets.append(offset)
                 shapes.append((1,))
                 offset += 1
                 flattenedArray.append(arr)
             elif arr is None:
                 nones.append(i)
+            else:
+                # silently skipping the entry would shift every later entry on read
+                raise TypeError(
+                    "Cannot flatten an entry of type {} in the jagged data of {}".format(
+                        type(arr), paramName
+                    )
+                )
 
         self.flattenedArray = np.array(flattenedArray)
         self.offsets = np.array(offsets)
